@@ -249,6 +249,7 @@ def run(rep: Report, tier: str) -> None:
 
     rh = rep.rule("C06.h", "the detail fractions shown are those up to the to-date on the event's own calendar date (entry-set iterator), like the summary's cut", floor=2)
     c10.check_iterator_window(rep, rh, m, "the detail table would be cut at another day boundary than the yearly summary: lines no longer equal the sum of the fractions shown")
+    c10.check_cut_kinds(rep, rh, m)
 
     # ---------------------------------------------------------------- C06.e
     from .c13 import check_summary_writers
